@@ -16,7 +16,7 @@ class C01(RecorderProp):
             'holds at least one interception; distinct = distinct canonical case')
     OPTS = dict(ALL_OPTS, faults=False, control=False, data=False, sampling=False, missing_play=False, body_effects=False,
                 interrupts=True, play_ratio=0.0, runs=(1, 2), cassettes=['memory', 'memory', 'file', 's3'])
-    N = {'quick': 400, 'thorough': 10000}
+    N = {'quick': 2500, 'thorough': 30000}
 
     def gen_one(self, rng, tier):
         # one case in six carries values that contain themselves / one object twice (copied value by value: in-memory)
